@@ -474,7 +474,11 @@ def run(ctx):
     fdt = lambda: rng.choice(["float64", "float64", "float32"])  # noqa
 
     mism = [((3, 5), (2, 3)), ((2, 3), (3, 5)), ((3, 5), (5, 3)), ((3, 5), (3, 4)),
-            ((3, 5), (2, 5)), ((1, 1), (0, 0)), ((2, 2), (1, 4)), ((5, 2), (2, 5))]
+            ((3, 5), (2, 5)), ((1, 1), (0, 0)), ((2, 2), (1, 4)), ((5, 2), (2, 5)),
+            # same number of series, the second array LONGER in time (by a little and by far more
+            # than an allocator's slack), more series, and the first array the longer one
+            ((3, 5), (3, 9)), ((2, 4), (2, 64)), ((4, 6), (4, 200)), ((3, 5), (4, 5)),
+            ((3, 9), (3, 5)), ((2, 64), (2, 4))]
     for (m, T) in grid:
         mask = nprng.rand(m, T) < 0.7
         an = dyadic(nprng, (m, T), -1.0, 1, hit_ends=False)
